@@ -109,9 +109,10 @@ type FeeAt struct {
 
 // Universe is what an init step carries.
 type Universe struct {
-	Txs   []ATx `json:"txs"`
-	St    ASt   `json:"st"`
-	MaxTx int   `json:"maxtx"`
+	Txs   []ATx          `json:"txs"`
+	St    ASt            `json:"st"`
+	MaxTx int            `json:"maxtx"`
+	Till  map[string]int `json:"till,omitempty"` // "DEPx" -> relative height the notary deposit of x is locked until (default 1)
 }
 
 var attrKinds = map[string]transaction.AttrType{"high": transaction.HighPriority, "oracle": transaction.OracleResponseT,
@@ -125,6 +126,7 @@ type acct struct {
 	ver  []byte
 	keys []*keys.PrivateKey
 	m    int
+	dep  string // kind notary: the depositor that pays when the Notary contract is the sender ("": Notary only co-signs)
 }
 
 func sigAcct(name string) *acct {
@@ -304,6 +306,9 @@ func NewWorld(t testing.TB, u Universe) (w *World, err error) {
 	w.acc["K"] = &acct{name: "K", kind: "contract", h: w.kHash}
 	w.acc["ORC"] = &acct{name: "ORC", kind: "oracle", h: nativehashes.OracleContract}
 	w.acc["NOTARY"] = &acct{name: "NOTARY", kind: "notary", h: nativehashes.Notary}
+	for _, d := range []string{"A", "B", "C", "D"} {
+		w.acc["DEP"+d] = &acct{name: "DEP" + d, kind: "notary", h: nativehashes.Notary, dep: d}
+	}
 	gasH, neoH, polH := e.NativeHash(t, nativenames.Gas), e.NativeHash(t, nativenames.Neo), e.NativeHash(t, nativenames.Policy)
 	desH, mgmH := e.NativeHash(t, nativenames.Designation), e.NativeHash(t, nativenames.Management)
 	val := []neotest.Signer{e.Validator}
@@ -374,20 +379,55 @@ func NewWorld(t testing.TB, u Universe) (w *World, err error) {
 	if err = w.addBlock(false, txs...); err != nil {
 		return w, err
 	}
-	// blocks 5..: exact balances of the poor payers (the last preparation block), aligned so that base % epoch == 1
-	for (w.bc.BlockHeight()+1)%epoch != 1 {
-		if err = w.addBlock(true); err != nil {
-			return w, err
-		}
-	}
-	txs = nil
+	// blocks 5..: notary deposits (made by the depositors themselves: only the owner sets the lock height), then exact
+	// balances of the poor payers (the last preparation block), aligned so that base % epoch == 1
 	names := make([]string, 0, len(u.St.Bal))
 	for n := range u.St.Bal {
 		names = append(names, n)
 	}
 	sort.Strings(names)
+	var deps []string
 	for _, n := range names {
-		if n == "ORC" || u.St.Bal[n] == 0 {
+		if strings.HasPrefix(n, "DEP") && u.St.Bal[n] > 0 {
+			deps = append(deps, n)
+		}
+	}
+	nb := 1
+	if len(deps) > 0 {
+		nb = 3
+	}
+	for (w.bc.BlockHeight()+uint32(nb))%epoch != 1 {
+		if err = w.addBlock(true); err != nil {
+			return w, err
+		}
+	}
+	if len(deps) > 0 {
+		base := w.bc.BlockHeight() + 3
+		var fund, dep []*transaction.Transaction
+		for _, n := range deps {
+			a, ok := w.acc[n]
+			if !ok || a.dep == "" {
+				return w, fmt.Errorf("unknown deposit %q", n)
+			}
+			d := w.acc[a.dep]
+			till := 1
+			if t, ok := u.Till[n]; ok {
+				till = t
+			}
+			tx := w.prep([]neotest.Signer{d.signer()}, 0, gasH, "transfer", d.h, nativehashes.Notary, u.St.Bal[n], []any{nil, int64(base) + int64(till)})
+			dep = append(dep, tx)
+			fund = append(fund, w.prep(val, 0, gasH, "transfer", vh, d.h, u.St.Bal[n]+tx.NetworkFee+tx.SystemFee, nil)) // spent to the last datoshi
+		}
+		if err = w.addBlock(true, fund...); err != nil {
+			return w, err
+		}
+		if err = w.addBlock(true, dep...); err != nil {
+			return w, err
+		}
+	}
+	txs = nil
+	for _, n := range names {
+		if n == "ORC" || u.St.Bal[n] == 0 || strings.HasPrefix(n, "DEP") {
 			continue
 		}
 		a, ok := w.acc[n]
@@ -840,6 +880,8 @@ func (w *World) State() ASt {
 		}
 		if a.kind != "notary" {
 			st.Bal[n] = capBal(bc.GetUtilityTokenBalance(a.h, util.Uint160{}).Int64())
+		} else if a.dep != "" {
+			st.Bal[n] = capBal(bc.GetUtilityTokenBalance(a.h, w.acc[a.dep].h).Int64())
 		}
 	}
 	// attribute fees as the node charges them: a probe transaction with one attribute
